@@ -67,8 +67,10 @@ class PhaseShift():
         """
         points_t = np.copy(points)
         for i, dim in enumerate(self.periodic):
-            points_t[:, dim] = (points_t[:, dim] + (-1 if inverse else +1) *
-                                (-self.centers[i] + 0.5)) % 1
+            x = (points_t[:, dim] + (-1 if inverse else +1) *
+                 (-self.centers[i] + 0.5)) % 1
+            # Rounding can yield exactly 1.0, the same point as 0.0.
+            points_t[:, dim] = np.where(x < 1, x, 0.0)
         return points_t
 
     def write(self, group):
